@@ -22,7 +22,7 @@ fn run_one(code: String) -> String {
             Err(err) => format!("PARSEERR {}", err.render(&code)),
             Ok(None) => "EMPTY".to_string(),
             Ok(Some(ex)) => match evaluate(&e, &ex) {
-                Ok(v) => format!("OK {}", noulith::FmtObj::debug(&v)),
+                Ok(v) => format!("OK {}", noulith::FmtObj(&v, &noulith::MyFmtFlags::budgeted_repr(usize::MAX))),
                 Err(err) => format!("ERR {}", err),
             },
         }
@@ -55,6 +55,14 @@ fn main() {
         let raw = line.unwrap();
         if let Some(rest) = raw.strip_prefix("#TIMEOUT-MS ") {
             timeout_ms = rest.trim().parse().unwrap_or(0);
+            continue;
+        }
+        if let Some(rest) = raw.strip_prefix("#TIMED ") {
+            // "T <microseconds> <result>": wall time of one evaluation (used to replay allocation-behaviour counterexamples)
+            let code = rest.replace("\\n", "\n");
+            let t0 = std::time::Instant::now();
+            let r = run_one(code);
+            println!("T {} {}", t0.elapsed().as_micros(), oneline(&r));
             continue;
         }
         let code = raw.replace("\\n", "\n");
